@@ -22,6 +22,10 @@ type Env struct {
 	// Negative-tie rounding as the repository's own test suite pins it
 	// (round(-1.5) = -2); see known finding KF-round-negative-tie.
 	RoundHalfAwayNegative bool
+	// Unpinned is set (to a reason) when an evaluation depended on something
+	// the listed properties do not pin down, e.g. the sign of a zero divisor
+	// that is not a numeric literal; such cases are discarded, not judged.
+	Unpinned string
 }
 
 type Ctx struct {
@@ -94,6 +98,9 @@ func (e *Env) Eval(x *xast.Expr, c Ctx) (Value, error) {
 		case "*":
 			return Number(a * b), nil
 		case "div":
+			if b == 0 && !isZeroLiteral(x.A[1]) {
+				e.Unpinned = "zero-divisor-of-unpinned-sign"
+			}
 			return Number(a / b), nil
 		}
 		return Number(math.Mod(a, b)), nil
@@ -483,3 +490,10 @@ func axis(ax string, n *xmodel.Node, d *xmodel.Doc) []*xmodel.Node {
 
 // Axis exposes axis evaluation for implementation-only laws.
 func Axis(ax string, n *xmodel.Node, d *xmodel.Doc) []*xmodel.Node { return axis(ax, n, d) }
+
+func isZeroLiteral(x *xast.Expr) bool {
+	for x.K == "neg" {
+		x = x.A[0]
+	}
+	return x.K == "num"
+}
